@@ -99,6 +99,7 @@ func fqPool(names, seqs []string, qalpha string) []fqRec {
 }
 
 func runC02(r *core.Run) {
+	racePass(r, "race-format-fastq", "the fastq codec: readers each on their own stream (whole and in 7-byte reads, every corpus file), Write on shared records into separate destinations, File on one shared path; every result is compared with what the same call returned when it ran alone")
 	firstCallClause(r, "fastq.")
 	pool := fqPool([]string{"", "a", "@", "+", "@+"}, enum.AllStrings("A@+", 2), "I@+")
 	small := fqPool([]string{"a", "@"}, enum.AllStrings("A@+", 1), "I@+")
@@ -265,6 +266,22 @@ func runC02(r *core.Run) {
 			return nil, nil, false, ""
 		}
 		recs := []fqRec{{core.S(prefix + "r"), "AC", "II"}, {"b", "G", "I"}}
+		data, fail := writeFastqChecked(recs)
+		return data, wantFastq(recs), true, fail
+	})
+	escapeSpellingsClause(r, "fastq", []string{"name", "seq", "qual"}, func(field, v string) ([]byte, []obsItem, bool, string) {
+		if hasDelim(v) {
+			return nil, nil, false, ""
+		}
+		recs := []fqRec{{"first", "AC", "II"}, {"n", "ACGT", "IIII"}, {"last", "G", "I"}}
+		switch field {
+		case "name":
+			recs[1].Name = core.S(v)
+		case "seq":
+			recs[1].Seq, recs[1].Qual = core.S(v), core.S(strings.Repeat("I", len(v)))
+		default:
+			recs[1].Seq, recs[1].Qual = core.S(strings.Repeat("A", len(v))), core.S(v)
+		}
 		data, fail := writeFastqChecked(recs)
 		return data, wantFastq(recs), true, fail
 	})
